@@ -1381,6 +1381,9 @@ class Worker(actor.RallyActor):
                     self.worker_id,
                     self.current_task_index,
                 )
+                # nothing is executed for this column: move on right away, otherwise neither a wake-up nor a message is pending
+                # and this worker (and with it the whole race) would wait forever.
+                self.drive()
             else:
                 self.logger.debug("Worker[%d] is executing tasks at index [%d].", self.worker_id, self.current_task_index)
                 self.sampler = Sampler(start_timestamp=time.perf_counter(), buffer_size=self.sample_queue_size)
